@@ -186,20 +186,34 @@ def _divider():
             crit.append("push1")
         elif n == "cell_lst.push_back(daughter_2);":
             crit.append("push2")
+        elif n == "daughter_cell_lst.push_back(daughter_1);":
+            crit.append("collect1")
+        elif n == "daughter_cell_lst.push_back(daughter_2);":
+            crit.append("collect2")
         else:
             raise TranslateError("critical section: unrecognised statement: %s" % st[:100])
     if not bound:
         raise TranslateError("critical section does not bind the daughters")
     # nothing but the critical section may touch the list inside the loop
     rest_loop = loop[:c.start()] + loop[c1 + 1:]
-    if re.search(r"push_back|max_cell_id_|clear_data|set_local_id|cell_id_", rest_loop):
+    if re.search(r"push_back|insert|erase|max_cell_id_|clear_data|set_local_id|cell_id_", rest_loop):
         raise TranslateError("the loop modifies the list outside the critical section")
     after = _preprocess(body[l1 + 1:], {})
-    post = []
+    after_loop, post = [], []
     sts = _statements(after)
-    if len(sts) != 1 or not re.match(r"^if\(cells_to_delete_lst\.size\(\)>0\)\{", _norm(sts[0])):
+    if not sts or not re.match(r"^if\(cells_to_delete_lst\.size\(\)>0\)\{", _norm(sts[-1])):
         raise TranslateError("statements after the loop changed: %r" % [x[:60] for x in sts])
-    blk = sts[0]
+    for st in sts[:-1]:
+        if _norm(st) == "cell_lst.insert(cell_lst.end(),daughter_cell_lst.begin(),daughter_cell_lst.end());":
+            after_loop.append("appendDaughters")
+        else:
+            raise TranslateError("after the loop: unrecognised statement: %s" % st[:100])
+    collects = ("collect1" in crit) or ("collect2" in crit)
+    if collects != (after_loop == ["appendDaughters"]):
+        raise TranslateError("daughters are collected in daughter_cell_lst but not appended exactly once after the loop (or vice versa)")
+    if collects and not re.search(r"std::vector<cell_ptr>\s+daughter_cell_lst\s*;", body[:m.start()]):
+        raise TranslateError("daughter_cell_lst is not a fresh local vector")
+    blk = sts[-1]
     b0 = blk.index("{")
     b1 = X.match_brace(blk, b0)
     for st in _statements(blk[b0 + 1:b1]):
@@ -212,7 +226,7 @@ def _divider():
             post.append("renumber")
         else:
             raise TranslateError("after the loop: unrecognised statement: %s" % st[:100])
-    return crit, post
+    return crit, after_loop, post
 
 
 def _ctor():
@@ -284,7 +298,7 @@ def gen_population():
     origin = "src/solver.cpp, src/triangulation_modules/cell_divider.cpp, src/contact_models/contact_node_node_via_coupling.cpp"
     macros = _macros()
     phases, period = _phases(macros)
-    crit, post = _divider()
+    crit, after_loop, post = _divider()
     _ctor()
     ck, nk, ckname = _keys()
     epi = _epi_types(macros)
@@ -299,6 +313,7 @@ open Simu.Pop
 def code : Code :=
   { phases := [%s],
     crit := [%s],
+    afterLoop := [%s],
     post := [%s],
     period := %d,
     cellKey := fun c => %s,
@@ -313,11 +328,11 @@ def minTypesEpithelial : Nat := %d
 
 end Simu.Gen.Population
 """ % (origin, macros.get("POLARIZATION_MODE_INDEX"), macros.get("CONTACT_MODEL_INDEX"),
-       ", ".join("." + p for p in phases), ", ".join("." + p for p in crit), ", ".join("." + p for p in post),
+       ", ".join("." + p for p in phases), ", ".join("." + p for p in crit), ", ".join("." + p for p in after_loop), ", ".join("." + p for p in post),
        period, ck, nk, ", ".join(map(str, epi)), min_all, max(min_all, min_epi))
     if str(macros.get("CONTACT_MODEL_INDEX")) != "1" or str(macros.get("POLARIZATION_MODE_INDEX")) != "1":
         raise TranslateError("the population model describes CONTACT_MODEL_INDEX = 1, POLARIZATION_MODE_INDEX = 1")
     changed = translate.write_if_changed(os.path.join(translate.GEN, NAME + ".lean"), body)
     return {"file": "Gen/%s.lean" % NAME, "origin": origin, "rewritten": changed,
             "sha256": hashlib.sha256(body.encode()).hexdigest()[:16],
-            "phases": phases, "crit": crit, "post": post, "period": period, "cell_key": ckname, "epi_types_written": epi, "min_face_types": [min_all, max(min_all, min_epi)]}
+            "phases": phases, "crit": crit, "after_loop": after_loop, "post": post, "period": period, "cell_key": ckname, "epi_types_written": epi, "min_face_types": [min_all, max(min_all, min_epi)]}
